@@ -51,10 +51,14 @@
 (* the case's grammar must be LR(1) (a conflict reached during evaluation  *)
 (* is reported and the case is discarded by the orchestrator).             *)
 (***************************************************************************)
-EXTENDS CanonLR, SemVal, TLC, Json, IOUtils
+EXTENDS CanonLR, SemVal, Cfg, TLC, Json, IOUtils
 
-Cases == JsonDeserialize(IOEnv.EVAL_CASES)
+(* raw cases; those carrying cfg attributes mean their filtered grammar (Cfg.tla) *)
+Raw == JsonDeserialize(IOEnv.EVAL_CASES)
+HasCfg(r) == "feats" \in DOMAIN r
+Cases == [i \in DOMAIN Raw |-> IF HasCfg(Raw[i]) /\ SelfContained(Raw[i]) THEN ApplyCfg(Raw[i]) ELSE Raw[i]]
 NC == Len(Cases)
+Evaluable(k) == HasCfg(Raw[k]) => SelfContained(Raw[k])
 PreOf == [k \in 1..NC |-> Pre(Cases[k].G)]
 
 NoLa == [t |-> "none", k |-> 0]
@@ -76,10 +80,10 @@ Running == [kind |-> "run"]
 
 (* Only LR(1) grammars are evaluated (decided here, by the spec, for the
    whole canonical collection); the verdict is printed for the orchestrator. *)
-LR1Of == [k \in 1..NC |-> IsLR1(Cases[k].G, PreOf[k], Cases[k].sp)]
+LR1Of == [k \in 1..NC |-> Evaluable(k) /\ IsLR1(Cases[k].G, PreOf[k], Cases[k].sp)]
 ASSUME \A k \in 1..NC :
-         PrintT("@@LR1 " \o ToJson([id |-> Cases[k].id, lr1 |-> LR1Of[k],
-                                    reduced |-> Reduced(Cases[k].G, Lhs(Cases[k].G, Cases[k].sp))]))
+         PrintT("@@LR1 " \o ToJson([id |-> Cases[k].id, lr1 |-> LR1Of[k], evaluable |-> Evaluable(k),
+                                    reduced |-> Evaluable(k) /\ Reduced(Cases[k].G, Lhs(Cases[k].G, Cases[k].sp))]))
 
 Init == /\ c \in {k \in 1..NC : LR1Of[k]}
         /\ stk = << [I |-> InitSet(Cases[c].G, PreOf[c], Cases[c].sp), v |-> <<"bot">>, lo |-> 0, hi |-> 0, pend |-> <<>>] >>
